@@ -218,10 +218,10 @@ func (vc *VC) checkFrame(st, from *State, writes []*Clause, kind, where string, 
 		if !ok {
 			old, ok = vc.heap0[h]
 		}
-		if !ok || old.S == cur.S {
+		if !ok || old.S == cur.S || strings.HasPrefix(h, "G$called$") {
 			continue
 		}
-		conds := []string{"(< r!f " + from.alloc + ")", "(<= 0 r!f)"}
+		conds := []string{"(< r!f " + from.alloc + ")", "(< 0 r!f)"} // ref 0 is nil: it owns no contents
 		if ifaceKeyedGhost(h) {
 			conds = nil
 		}
